@@ -757,7 +757,7 @@ def drv_machine(ctx: Ctx, sub: SubCheck):
     M = make_machine("TransmissionTrackingMachine", Runner, rules, initial_ops=prefix)
 
     def work(shard, t: Tally):
-        run_machine(ctx, sub.name, M, max_examples=ctx.pick(40, 500), step_count=ctx.pick(30, 60), tally=t, shard=shard)
+        run_machine(ctx, sub.name, M, max_examples=ctx.pick(40, 300), step_count=ctx.pick(30, 60), tally=t, shard=shard)
 
     ctx.shards(work, list(range(ctx.pick(16, 32))))
 
